@@ -26,6 +26,7 @@ var tokenMap = map[string]token.Token{
 }
 
 type World struct {
+	replayImports map[string]string // import path -> name, needed by the replay test being generated
 	Root      string
 	ModPath   string
 	Prog      *ssa.Program
@@ -196,6 +197,7 @@ func (w *World) VerifyFunc(fn *ssa.Function) *Ctx {
 		c.strict = true
 	}
 	f := c.newFrame(fn, true)
+	c.computeAncestors(fn)
 	st := &State{H: map[string]string{}}
 	alloc0 := c.heapGet(st, allocHeap, "Int")
 	// the allocation frontier is a multiple of the stride, above every global
@@ -309,31 +311,49 @@ func (w *World) VerifyFunc(fn *ssa.Function) *Ctx {
 		envs = append(envs, retEnv{env, r.guard})
 	}
 	f.curGuard = "true"
+	c.curTopBlock = -1
 	for k, e := range ct.Ensures {
-		var parts []string
+		key := fmt.Sprint(k)
+		if e.Tag != "" {
+			key = e.Tag
+		}
+		if strings.HasSuffix(e.Tag, ",witness") {
+			// definitional: introduces an uninterpreted predicate that holds, by
+			// definition, of what this function returns for these arguments
+			// ("m is an output of f(args)"). Nothing to prove in the body; callers
+			// may assume it. Listed among the assumptions in the evidence.
+			c.note("witness clause (definitional, not proved): %s", e.Text)
+			continue
+		}
+		var parts []*Obligation
 		bad := false
-		for _, re := range envs {
+		for ri, re := range envs {
 			t, err := re.env.boolTerm(e.E)
 			if err != nil {
 				c.unsupported("ensures %q: %v", e.Text, err)
 				bad = true
 				break
 			}
-			parts = append(parts, implies(re.guard, t))
+			blk := -1
+			if rb := f.retBlocks[ri]; rb >= 0 {
+				blk = rb
+			}
+			parts = append(parts, &Obligation{Guard: re.guard, Goal: t, Prefix: len(c.Log), Ctx: c, Blk: blk})
 		}
 		if bad {
 			continue
 		}
-		key := fmt.Sprint(k)
-		if e.Tag != "" {
-			key = e.Tag
+		o := f.oblige("ensures", key, "(= 0 1)", fn.Pos(), e.Text)
+		if o != nil {
+			o.Blk = -1
+			o.Guard = "true"
+			o.Parts = parts
+			for _, p := range parts {
+				p.Name, p.Kind, p.Func, p.Text, p.Pos = o.Name, o.Kind, o.Func, o.Text, o.Pos
+				p.Prefix = len(c.Log)
+			}
+			o.Prefix = len(c.Log)
 		}
-		goal := and(parts...)
-		if goal == "true" {
-			goal = "(= 0 0)"
-		}
-		o := f.oblige("ensures", key, goal, fn.Pos(), e.Text)
-		_ = o
 	}
 	c.emitAxioms()
 	// cover: every return reachable (vacuity guard)
@@ -359,7 +379,9 @@ func (w *World) setupFrame(c *Ctx, f *Frame, ct *Contract, st *State) {
 	env.locals = false
 	c.frameAllowed = map[string][]string{}
 	c.frameAllowedCond = map[string][][2]string{}
+	c.frameAllowedQ = map[string][]havocTarget{}
 	c.frameWhole = map[string]bool{}
+	env.qprefix = "qo$"
 	for _, a := range ct.Assigns {
 		if a.Text == "*" {
 			return
@@ -381,6 +403,8 @@ func (w *World) setupFrame(c *Ctx, f *Frame, ct *Contract, st *State) {
 		for _, t := range ts {
 			if t.key == "" {
 				c.frameWhole[t.heap] = true
+			} else if t.qbind != "" {
+				c.frameAllowedQ[t.heap] = append(c.frameAllowedQ[t.heap], t)
 			} else if t.cond == "" {
 				c.frameAllowed[t.heap] = append(c.frameAllowed[t.heap], t.key)
 			} else {
@@ -397,6 +421,12 @@ func (f *Frame) frameCheck(h, k string, pos token.Pos, what string) {
 }
 
 func (f *Frame) frameCheckCond(h, k, cond string, pos token.Pos, what string) {
+	f.frameCheckQ(h, k, cond, "", pos, what)
+}
+
+// frameCheckQ: qbind non-empty means the write is to every key described by
+// (exists qbind. cond && key == k).
+func (f *Frame) frameCheckQ(h, k, cond, qbind string, pos token.Pos, what string) {
 	c := f.c
 	if !c.frameOn || c.frameWhole[h] || c.suppress > 0 {
 		return
@@ -419,13 +449,57 @@ func (f *Frame) frameCheckCond(h, k, cond string, pos token.Pos, what string) {
 	for _, a := range c.frameAllowedCond[h] {
 		alts = append(alts, and(a[1], eq(k, a[0])))
 	}
-	f.oblige("frame", f.srcKey(pos, what)+" "+h, implies(cond, or(alts...)), pos, "write to "+h+" outside the assigns clause")
+	for _, a := range c.frameAllowedQ[h] {
+		alts = append(alts, "(exists "+a.qbind+" "+and(a.cond, eq(k, a.key))+")")
+	}
+	goal := implies(cond, or(alts...))
+	if qbind != "" {
+		goal = "(forall " + qbind + " " + goal + ")"
+	}
+	f.oblige("frame", f.srcKey(pos, what)+" "+h, goal, pos, "write to "+h+" outside the assigns clause")
 }
 
 // assumeGlobalInits states facts about package-level variables that are never
 // written outside package initialisation (checked by the C18 scan).
 func (w *World) assumeGlobalInits(c *Ctx, f *Frame, st *State) {
-	// Facts are added lazily by globalFacts when a global is first loaded; see globals.go
+	// Facts about literal initialisers are added lazily by globalFacts when a
+	// global is first loaded (globals.go). Here: the proved postconditions of
+	// explicit init functions of the same package or of imported in-repo
+	// packages, for globals that are never written afterwards.
+	if c.Fn == nil || c.Fn.Pkg == nil {
+		return
+	}
+	if strings.HasPrefix(c.Fn.Name(), "init") {
+		return
+	}
+	visible := map[string]bool{c.Fn.Pkg.Pkg.Path(): true}
+	for _, imp := range c.Fn.Pkg.Pkg.Imports() {
+		visible[imp.Path()] = true
+	}
+	var keys []string
+	for k, ct := range w.Specs.Contracts {
+		if ct.Kind == "func" && strings.Contains(k, ".init#") {
+			keys = append(keys, k)
+		}
+	}
+	sort.Strings(keys)
+	for _, k := range keys {
+		ifn := w.FuncByKey[k]
+		if ifn == nil || ifn.Pkg == nil || !visible[ifn.Pkg.Pkg.Path()] {
+			continue
+		}
+		ct := w.Specs.Contracts[k]
+		env := &SpecEnv{f: f, c: c, vars: map[string]Val{}, bound: map[string]bool{}, cur: st, old: st, pkg: ifn.Pkg, fn: ifn}
+		for _, e := range ct.Ensures {
+			t, err := env.boolTerm(e.E)
+			if err != nil {
+				c.note("init postcondition %q not usable here: %v", e.Text, err)
+				continue
+			}
+			c.assert(t)
+		}
+		c.usedContracts[k] = true
+	}
 }
 
 func (w *World) contractFuncs() []*ssa.Function {
@@ -608,4 +682,24 @@ func (w *World) embeddedTypes() map[string]bool {
 		}
 	}
 	return w.embedded
+}
+
+// computeAncestors: for each block of fn, the blocks that can reach it.
+func (c *Ctx) computeAncestors(fn *ssa.Function) {
+	c.ancestors = map[int]map[int]bool{}
+	for _, b := range fn.Blocks {
+		seen := map[int]bool{b.Index: true}
+		stack := []*ssa.BasicBlock{b}
+		for len(stack) > 0 {
+			x := stack[len(stack)-1]
+			stack = stack[:len(stack)-1]
+			for _, p := range x.Preds {
+				if !seen[p.Index] {
+					seen[p.Index] = true
+					stack = append(stack, p)
+				}
+			}
+		}
+		c.ancestors[b.Index] = seen
+	}
 }
